@@ -18,7 +18,8 @@ from pathlib import Path
 VERIF = Path(__file__).resolve().parent.parent
 REPO = Path(os.environ.get('PYWORKERS_REPO', '/repo'))
 LEAN = VERIF / 'lean'
-EVIDENCE = VERIF / 'evidence'
+# evidence/ is only for runs against /repo itself: a run pointed at a scratch worktree (seeded change) must not overwrite it
+EVIDENCE = VERIF / 'evidence' if REPO == Path('/repo') else VERIF / 'replays' / 'evidence_scratch'
 REPLAYS = VERIF / 'replays'
 KNOWN = VERIF / 'known_findings.json'
 ALLOWED_AXIOMS = {'propext', 'Classical.choice', 'Quot.sound'}
@@ -310,7 +311,7 @@ class Ctx:
             ev['coverage']['notes'] = self.notes
         if self.known_hits:
             ev['coverage']['known_findings_reproduced'] = sorted(self.known_hits)
-        EVIDENCE.mkdir(exist_ok=True)
+        EVIDENCE.mkdir(parents=True, exist_ok=True)
         (EVIDENCE / f'{self.id}.json').write_text(json.dumps(ev, indent=1, default=repr) + '\n')
         for l in lines:
             print(l)
